@@ -161,11 +161,25 @@ Theorem C09_projQ_forced_iterates (o : Opts (T:=R)) (hasQuats : bool) (pentry qe
 Proof. exact (projQ_forced_iterates o hasQuats pentry qentry nrm back qchg qn). Qed.
 Print Assumptions C09_projQ_forced_iterates.
 
+Theorem C09_projQ_success_state_within_tol_partial (o : @Opts R) hasQuats pentry qentry nrm back qchg qn pAfter :
+  let r := projectQ ROps o hasQuats pentry qentry nrm back qchg qn in
+  0 <= o_acc o -> (hasQuats = false -> qentry = 0) -> (r_quatNormalized r = true -> pAfter = r_pnorm r) ->
+  r_status r = Succeeded -> true_pnorm r pAfter <= o_acc o /\ r_qnorm r <= o_acc o.
+Proof. exact (projQ_success_state_within_tol_partial o hasQuats pentry qentry nrm back qchg qn pAfter). Qed.
+Print Assumptions C09_projQ_success_state_within_tol_partial.
+
+Theorem C09_projQ_success_state_within_tol_refuted :
+  exists (o : Opts (T:=R)) hq p q nrm back qc qn pAfter,
+    let r := projectQ ROps o hq p q nrm back qc qn in
+    r_status r = Succeeded /\ r_normExit r = Some 0 /\ o_acc o < true_pnorm r pAfter.
+Proof. exact (projQ_success_state_within_tol_refuted). Qed.
+Print Assumptions C09_projQ_success_state_within_tol_refuted.
+
 Theorem C09_projQ_normExit_is_max_refuted :
   exists (o : Opts (T:=R)) hq p q nrm back qc qn,
     let r := projectQ ROps o hq p q nrm back qc qn in
     r_status r = Succeeded /\ r_normExit r = Some 0 /\ r_pnorm r = 1/2 /\ 0 < 1/2.
-Proof. exact projQ_normExit_is_max_refuted. Qed.
+Proof. exact (projQ_normExit_is_max_refuted). Qed.
 Print Assumptions C09_projQ_normExit_is_max_refuted.
 
 
